@@ -32,6 +32,13 @@ func runLine(h *harness, out *common.Out, fields []string) {
 			return
 		}
 		emitAdd(h, out, c)
+	case "addp":
+		c, err := parseAddCase(fields[1:])
+		if err != nil {
+			out.Line("# bad corpus line (%v): %s", err, strings.Join(fields, " "))
+			return
+		}
+		out.Line("C11 %s => ap=%s", c.parseTokens(), apTok(c.rawQuery()))
 	case "cli":
 		c, err := parseCliCase(fields[1:])
 		if err != nil {
@@ -62,6 +69,7 @@ func emitAdd(h *harness, out *common.Out, c addCase) {
 	if res != "" {
 		out.Line("C11 %s => %s", c.inputTokens(), res)
 	}
+	out.Line("C11 %s => ap=%s", c.parseTokens(), apTok(c.rawQuery()))
 }
 
 // crashProbe (not part of the check): how often does `POST /add?hash=sha3-512&progress=true` kill the
